@@ -105,7 +105,11 @@ func observe(root *plan.Node, payload string, deny map[string]bool, labels []str
 	errsS := []string{"errs"}
 	dataRaw := ""
 	envOK := false
+	dtree := "(none)"
 	if valid {
+		if ov, e := astjson.ParseBytes(out); e == nil {
+			dtree = common.L("some", plan.JSONSexp(ov.Get("data")))
+		}
 		res := gjson.ParseBytes(out)
 		dataRaw = res.Get("data").Raw
 		errsRaw := ""
@@ -140,7 +144,7 @@ func observe(root *plan.Node, payload string, deny map[string]bool, labels []str
 	}
 	return common.L("c02", root.Sexp(), plan.JSONSexp(pv), common.L(denyS...),
 		common.L("out", common.Q(out)), common.L("data", common.QS(dataRaw)), common.L(errsS...),
-		common.L("valid", common.B(valid)), common.L("env", common.B(envOK)), common.L("status", status),
+		common.L("valid", common.B(valid)), common.L("env", common.B(envOK)), common.L("status", status), common.L("dtree", dtree),
 		common.L("mut", common.QS(strings.Join(labels, ","))))
 }
 
